@@ -10,7 +10,8 @@
 //! the data path of every stdio mode can be checked.  Exit status: `--exit=N` (first such
 //! argument after argv[0]), else 0.  `--linger=MS`: sleep that long after stdin reached EOF
 //! (the program is still running for a known time after its stdin was closed); `--kill=SIG`:
-//! end by that signal instead of exiting.  Since stdin is read to EOF first, a parent holding
+//! end by that signal instead of exiting; `--no-stdin`: do not read stdin; `--spew=N`: write N extra bytes
+//! to stdout.  The dump names the executable that runs (`/proc/self/exe`).  Since stdin is read to EOF first, a parent holding
 //! the write end of a stdin pipe decides when the program ends.
 
 use serde_json::{json, Value};
@@ -153,7 +154,7 @@ pub fn fd_table() -> Vec<(i32, String)> {
 
 pub fn is_helper_exe() -> bool {
     match std::fs::read_link("/proc/self/exe") {
-        Ok(p) => p.file_name().map(|f| f == HELPER_NAME).unwrap_or(false),
+        Ok(p) => p.file_name().map(|f| f.to_string_lossy().starts_with(HELPER_NAME)).unwrap_or(false),
         Err(_) => false,
     }
 }
@@ -184,11 +185,15 @@ pub fn helper_main() -> ! {
         let um = libc::umask(0);
         libc::umask(um);
 
-        // stdin: everything up to EOF (bounded)
+        let flag = |name: &[u8]| -> Option<i64> { argv.iter().skip(1).find_map(|a| a.strip_prefix(name).and_then(|r| String::from_utf8_lossy(r).parse::<i64>().ok())) };
+        let no_stdin = argv.iter().skip(1).any(|a| a == b"--no-stdin");
+        let spew = flag(b"--spew=");
+        let exe = std::fs::read_link("/proc/self/exe").map(|p| hex(&p.into_os_string().into_vec())).unwrap_or_default();
+        // stdin: everything up to EOF (bounded), unless told to leave it alone
         let mut stdin_data = Vec::new();
         let mut stdin_err = 0;
         let mut buf = [0u8; 4096];
-        while stdin_data.len() < 65536 {
+        while !no_stdin && stdin_data.len() < 65536 {
             let n = libc::read(0, buf.as_mut_ptr() as *mut libc::c_void, buf.len());
             if n < 0 {
                 stdin_err = *libc::__errno_location();
@@ -204,6 +209,19 @@ pub fn helper_main() -> ! {
         }
         let w1 = libc::write(1, OUT_TOKEN.as_ptr() as *const libc::c_void, OUT_TOKEN.len());
         let w2 = libc::write(2, ERR_TOKEN.as_ptr() as *const libc::c_void, ERR_TOKEN.len());
+        // `--spew=N`: N more bytes to stdout (more than a pipe holds when N > 64 KiB)
+        if let Some(n) = spew {
+            let chunk = [b'x'; 4096];
+            let mut left = n.max(0) as usize;
+            while left > 0 {
+                let k = left.min(chunk.len());
+                let w = libc::write(1, chunk.as_ptr() as *const libc::c_void, k);
+                if w <= 0 {
+                    break;
+                }
+                left -= w as usize;
+            }
+        }
 
         let mut code = 0;
         for a in argv.iter().skip(1) {
@@ -233,6 +251,7 @@ pub fn helper_main() -> ! {
             "umask": um as u64,
             "stdin": hex(&stdin_data),
             "stdin_err": stdin_err,
+            "exe": exe,
             "closed_at_exec": closed_at_exec,
             "early_capture": early_done,
             "wrote": [w1 as i64, w2 as i64],
